@@ -376,10 +376,10 @@ class Run:
             data = m.bytes[oid]
             if lab in sc.get("corrupt", {}):
                 data = _corrupt(data, sc["corrupt"][lab])
-            self.w.raw_add("src", cfg["src_kind"], oid, data)
+            self.w.raw_add("src", cfg["src_kind"], oid, data, mode=0o644 if cfg.get("unprotected") else 0o444)
         for lab in sc["dest"]:
             oid = m.oid[lab]
-            self.w.raw_add(self.dname, dk, oid, m.bytes[oid])
+            self.w.raw_add(self.dname, dk, oid, m.bytes[oid], mode=0o644 if cfg.get("unprotected") else 0o444)
         self.index = None
         if cfg["use_index"] and not cfg.get("via_push"):
             from dvc_data.hashfile.db.index import ObjectDBIndex
@@ -708,6 +708,9 @@ def _gen_c12(rng):
         dest = {l for l in all_labels if rng.random() < 0.45}
         fillers = rng.randint(0, 12)
         sc["fillers"] = fillers
+        # objects of local-class stores lack the read-only mark (placed, not yet protected): every
+        # existence query re-hashes them
+        cfg["unprotected"] = rng.random() < 0.5
         for _ in range(rng.randint(2, 6)):
             q = [l for l in all_labels if rng.random() < 0.6]
             if len(q) < 2:
@@ -715,6 +718,8 @@ def _gen_c12(rng):
             shallow = rng.random() < 0.6
             if rng.random() < 0.5:
                 ops.append({"op": "status", "on": rng.choice(["src", "dest"]), "ids": q, "shallow": shallow})
+                if rng.random() < 0.3:
+                    ops[-1]["read_fault"] = {"nth": rng.randint(1, 3), "exc": rng.choice(["EIO", "EACCES"])}
             else:
                 ops.append({"op": "compare", "ids": q, "shallow": shallow,
                             "check_deleted": rng.random() < 0.7})
@@ -834,6 +839,10 @@ def _exec_c12(sc, ctx):
                 if not ok:
                     continue
                 q = m.expand(ids)
+            rf = op.get("read_fault")
+            fired0 = seam.fired.get("read_fault", 0)
+            if rf:
+                seam.faults = [{"at": ("open_r",), "match": None, "nth": rf["nth"], "exc": rf["exc"], "name": "read_fault", "count": 1}]
             try:
                 r = status(
                     odb,
@@ -844,8 +853,14 @@ def _exec_c12(sc, ctx):
                     jobs=cfg["jobs"],
                 )
             except Exception as exc:  # noqa: BLE001
+                seam.faults = []
+                if isinstance(exc, OSError) and seam.fired.get("read_fault", 0) > fired0:
+                    # an object could not be read back: refusing to answer is fine, a wrong answer is not
+                    ctx.probe("status_refused_after_read_error")
+                    continue
                 ctx.violate("status-raised", type(exc).__name__, repr(exc))
                 continue
+            seam.faults = []
             E = {h.value for h in r.exists}
             Mi = {h.value for h in r.missing}
             if E & Mi or (E | Mi) != q:
